@@ -14,9 +14,30 @@ Close Scope string_scope.
 
 Notation bang := ("!"%char) (only parsing).
 
+(* what may stand between the first and the last line of a continued statement: a middle piece
+   b&p& , a comment line (any indentation), an empty line *)
+Inductive celem := CMid (b p : text) | CCom (cl : text) | CBlank.
+Definition phys_e (e : celem) : text :=
+  match e with CMid b p => b ++ amp :: p ++ [amp] | CCom cl => cl | CBlank => [] end.
+Definition egood (e : celem) : Prop :=
+  match e with
+  | CMid b p => blanks b /\ plain p
+  | CCom cl => stripped cl /\ starts_with [bang] (lstrip cl) = true
+  | CBlank => True
+  end.
+Definition etext (es : list celem) : text :=
+  List.concat (map (fun e => match e with CMid _ p => p | _ => [] end) es).
+Fixpoint ecoms (es : list celem) (lc : nat) : list ritem :=
+  match es with
+  | [] => []
+  | CCom cl :: r => RComment (lstrip cl) lc lc false :: ecoms r (S lc)
+  | _ :: r => ecoms r (S lc)
+  end.
+
 Inductive lay :=
 | LOne (line : text) (lab : option N) (nm : option text) (p : text)
 | LCont (line : text) (lab : option N) (nm : option text) (p1 : text) (ms : list (text * text)) (bn pn : text)
+| LContC (line : text) (lab : option N) (nm : option text) (p1 : text) (es : list celem) (bn pn : text)
 | LCom (b c : text)
 | LBlank.
 
@@ -24,6 +45,7 @@ Definition phys (l : lay) : list text :=
   match l with
   | LOne line _ _ _ => [line]
   | LCont line _ _ _ ms bn pn => line :: mids ms ++ [last_line bn pn]
+  | LContC line _ _ _ es bn pn => line :: map phys_e es ++ [last_line bn pn]
   | LCom b c => [b ++ bang :: c]
   | LBlank => [[]]
   end.
@@ -41,6 +63,13 @@ Definition good (l : lay) : Prop :=
       stripped (last_line bn pn) /\
       strip (p1 ++ List.concat (map snd ms) ++ pn) <> [] /\
       mem_char ";"%char (strip (p1 ++ List.concat (map snd ms) ++ pn)) = false
+  | LContC line lab nm p1 es bn pn =>
+      stripped line /\ line <> [] /\ starts_with ["#"%char] (lstrip line) = false /\
+      (exists l1, extract_label line = (lab, l1) /\ extract_construct_name l1 = (nm, p1 ++ [amp])) /\
+      plain p1 /\ Forall egood es /\ blanks bn /\ plain pn /\ pn <> [] /\ negb (is_blank pn) = true /\
+      stripped (last_line bn pn) /\
+      strip (p1 ++ etext es ++ pn) <> [] /\
+      mem_char ";"%char (strip (p1 ++ etext es ++ pn)) = false
   | LCom b c => blanks b /\ stripped (b ++ bang :: c)
   | LBlank => True
   end.
@@ -48,14 +77,24 @@ Definition good (l : lay) : Prop :=
 Section File.
 Variable ign : bool.
 
-Definition item (l : lay) (lc : nat) : list ritem :=
+(* what get_source_item hands out for a layout element (the item it returns, then what it leaves in
+   the queue: the comments met between the lines of a continued statement) *)
+Definition produced (l : lay) (lc : nat) : ritem * list ritem :=
   match l with
-  | LOne _ lab nm p => [RLine (strip p) lab nm (S lc) (S lc)]
+  | LOne _ lab nm p => (RLine (strip p) lab nm (S lc) (S lc), [])
   | LCont _ lab nm p1 ms _ pn =>
-      [RLine (strip (p1 ++ List.concat (map snd ms) ++ pn)) lab nm (S lc) (S (S lc) + List.length ms)]
-  | LCom _ c => if ign then [] else [RComment (bang :: c) (S lc) (S lc) false]
-  | LBlank => if ign then [] else [RComment [] (S lc) (S lc) false]
+      (RLine (strip (p1 ++ List.concat (map snd ms) ++ pn)) lab nm (S lc) (S (S lc) + List.length ms), [])
+  | LContC _ lab nm p1 es _ pn =>
+      (RLine (strip (p1 ++ etext es ++ pn)) lab nm (S lc) (S (S lc) + List.length es), ecoms es (S (S lc)))
+  | LCom _ c => (RComment (bang :: c) (S lc) (S lc) false, [])
+  | LBlank => (RComment [] (S lc) (S lc) false, [])
   end.
+
+(* ignored comments are dropped when they reach the front of the queue *)
+Definition kept (it : ritem) : bool := match it with RComment _ _ _ _ => negb ign | _ => true end.
+Definition keep (l : list ritem) : list ritem := filter kept l.
+
+Definition item (l : lay) (lc : nat) : list ritem := keep (fst (produced l lc) :: snd (produced l lc)).
 
 Fixpoint items (ls : list lay) (lc : nat) : list ritem :=
   match ls with
@@ -160,83 +199,242 @@ Proof. unfold get_source_item. rewrite (gsl ign _ [] lc [] eq_refl). reflexivity
 Lemma gsi_end lc : get_source_item (stt [] lc []) = (None, stt [] lc []).
 Proof. reflexivity. Qed.
 
+(* ---- a continued statement with comment and empty lines between its lines *)
+Lemma phys_es_stripped es bn pn : Forall egood es -> stripped (last_line bn pn) ->
+  Forall stripped (map phys_e es ++ [last_line bn pn]).
+Proof.
+  intros G SL. apply Forall_app. split; [|constructor; [exact SL|constructor]].
+  induction G as [|e r Ge Gr IH]; [constructor|]. cbn [map]. constructor; [|exact IH].
+  destruct e as [b p|cl|]; cbn [phys_e egood] in *.
+  - unfold stripped. replace (b ++ amp :: p ++ [amp]) with ((b ++ amp :: p) ++ [amp]) by (now rewrite <- app_assoc).
+    apply rstrip_amp.
+  - apply Ge.
+  - reflexivity.
+Qed.
+
+Lemma join_es bn pn : blanks bn -> plain pn -> pn <> [] -> negb (is_blank pn) = true -> stripped (last_line bn pn) ->
+  forall es fuel acc endl lc fifo src l0 rest,
+  map phys_e es ++ [last_line bn pn] = l0 :: rest -> Forall egood es -> List.length es < fuel ->
+  free_loop (S fuel) false false acc None endl l0 (stt (rest ++ src) lc fifo)
+  = (acc ++ etext es ++ pn, lc + List.length es, stt src (lc + List.length es) (fifo ++ ecoms es lc)).
+Proof.
+  intros Bn Pn NE NB SL. induction es as [|e r IH]; intros fuel acc endl lc fifo src l0 rest EQ G LT.
+  - cbn [map app] in EQ. inversion EQ; subst. cbn [app etext map List.concat List.length ecoms].
+    rewrite (step_last ign src fuel acc endl bn pn lc fifo Bn Pn NE NB). now rewrite !app_nil_r, Nat.add_0_r.
+  - inversion G as [|x y Ge Gr]; subst. cbn [map app] in EQ. inversion EQ; subst. clear EQ.
+    pose proof (phys_es_stripped r bn pn Gr SL) as ST.
+    destruct (map phys_e r ++ [last_line bn pn]) as [|l1 rest1] eqn:E1; [destruct r; discriminate|].
+    inversion ST as [|x y S1 _]; subst. cbn [app].
+    destruct fuel as [|f]; [cbn in LT; lia|].
+    destruct e as [b p|cl|]; cbn [phys_e egood] in *.
+    + destruct Ge as [Bb Pp]. rewrite (step_cont ign (S f) acc endl b p l1 (rest1 ++ src) lc fifo Bb Pp S1).
+      rewrite (IH f (acc ++ p) lc (S lc) fifo src l1 rest1 eq_refl Gr) by (cbn in LT; lia).
+      cbn [etext map List.concat List.length ecoms]. rewrite <- !app_assoc.
+      replace (S lc + List.length r) with (lc + S (List.length r)) by lia. reflexivity.
+    + destruct Ge as [Sc Hc]. rewrite (skip_comment_line ign (S f) acc None endl cl l1 (rest1 ++ src) lc fifo Hc S1).
+      rewrite (IH f acc endl (S lc) _ src l1 rest1 eq_refl Gr) by (cbn in LT; lia).
+      cbn [etext map List.concat List.length ecoms app]. rewrite <- app_assoc.
+      replace (S lc + List.length r) with (lc + S (List.length r)) by lia. reflexivity.
+    + rewrite (skip_blank_line ign (S f) acc None endl [] l1 (rest1 ++ src) lc fifo eq_refl S1).
+      rewrite (IH f acc endl (S lc) fifo src l1 rest1 eq_refl Gr) by (cbn in LT; lia).
+      cbn [etext map List.concat List.length ecoms app].
+      replace (S lc + List.length r) with (lc + S (List.length r)) by lia. reflexivity.
+Qed.
+
+Lemma gsi_contc line lab l1 nm p1 es bn pn src lc :
+  stripped line -> line <> [] -> starts_with ["#"%char] (lstrip line) = false ->
+  extract_label line = (lab, l1) -> extract_construct_name l1 = (nm, p1 ++ [amp]) ->
+  plain p1 -> Forall egood es -> blanks bn -> plain pn -> pn <> [] -> negb (is_blank pn) = true ->
+  stripped (last_line bn pn) -> strip (p1 ++ etext es ++ pn) <> [] ->
+  get_source_item (stt (line :: map phys_e es ++ last_line bn pn :: src) lc [])
+  = (Some (RLine (strip (p1 ++ etext es ++ pn)) lab nm (S lc) (S (S lc) + List.length es)),
+     stt src (S (S lc) + List.length es) (ecoms es (S (S lc)))).
+Proof.
+  intros SLn NEl NH EL EN P1 G Bn Pn PNE NB SLL NS.
+  unfold get_source_item. rewrite (gsl ign _ line lc [] SLn).
+  assert (X : (match line with [] => false | _ => true end) && starts_with ["#"%char] (lstrip line) = false)
+    by (rewrite NH; apply andb_false_r).
+  rewrite X. cbn [r_free st r_omp r_linecount]. unfold free_item. rewrite EL, EN. cbn [r_linecount st].
+  cbn [r_src r_filo st List.length].
+  pose proof (phys_es_stripped es bn pn G SLL) as ST.
+  destruct (map phys_e es ++ [last_line bn pn]) as [|l0 rest] eqn:E0; [destruct es; discriminate|].
+  inversion ST as [|x y S0 _]; subst.
+  replace (map phys_e es ++ last_line bn pn :: src) with ((l0 :: rest) ++ src)
+    by (rewrite <- E0, <- app_assoc; reflexivity).
+  cbn [app List.length].
+  match goal with |- context [free_loop (S ?f) false true] =>
+    rewrite (step_first ign f (S lc) p1 l0 (rest ++ src) (S lc) [] P1 S0) end.
+  match goal with |- context [free_loop ?f false false] => destruct f as [|f'] eqn:EF; [lia|] end.
+  rewrite (join_es bn pn Bn Pn PNE NB SLL es f' p1 (S lc) (S (S lc)) [] src l0 rest E0 G).
+  - cbn [app]. destruct (strip (p1 ++ etext es ++ pn)) as [|c t] eqn:STp; [contradiction|]. reflexivity.
+  - assert (LL : List.length (l0 :: rest) = S (List.length es)).
+    { rewrite <- E0, app_length, map_length. cbn. lia. }
+    cbn [List.length] in LL. rewrite app_length in EF. lia.
+Qed.
+
 (* ---- one layout element *)
 Lemma phys_length_pos l : 0 < List.length (phys l).
 Proof. destruct l; cbn; lia. Qed.
 
 Lemma gsi_lay l rest lc : good l ->
-  exists it, get_source_item (stt (phys l ++ rest) lc []) = (Some it, stt rest (lc + List.length (phys l)) []) /\
-    (match it with
-     | RComment _ _ _ _ => item l lc = (if ign then [] else [it])
-     | RLine t lab nm a b => item l lc = [it] /\ mem_char ";"%char t = false
-     | RCpp _ _ _ => False
-     end).
+  get_source_item (stt (phys l ++ rest) lc [])
+  = (Some (fst (produced l lc)), stt rest (lc + List.length (phys l)) (snd (produced l lc)))
+  /\ (match fst (produced l lc) with RLine t _ _ _ _ => mem_char ";"%char t = false | RCpp _ _ _ => False | _ => True end).
 Proof.
-  destruct l as [line lab nm p|line lab nm p1 ms bn pn|b c|]; cbn [good phys item].
+  destruct l as [line lab nm p|line lab nm p1 ms bn pn|line lab nm p1 es bn pn|b c|]; cbn [good phys produced fst snd].
   - intros [SL [NE [NH [[l1 [EL EN]] [P [NS SEMI]]]]]]. cbn [app List.length]. rewrite Nat.add_1_r.
-    eexists. split; [apply (gsi_one line lab nm p l1 rest lc SL NE NH EL EN P NS)|]. split; [reflexivity|exact SEMI].
+    split; [apply (gsi_one line lab nm p l1 rest lc SL NE NH EL EN P NS)|exact SEMI].
   - intros [SL [NE [NH [[l1 [EL EN]] [P1 [OK [Bn [Pn [PNE [NB [SLL [NS SEMI]]]]]]]]]]]].
     cbn [app List.length]. rewrite <- app_assoc. cbn [app].
     rewrite (item_of_continued_statement ign line lab l1 nm p1 ms bn pn rest lc [] SL NE NH EL EN P1 OK Bn Pn PNE NB SLL NS).
-    eexists. split.
-    + f_equal. f_equal. rewrite app_length, mids_length. cbn [List.length]. lia.
-    + split; [reflexivity|exact SEMI].
+    split; [|exact SEMI]. f_equal. f_equal. rewrite app_length, mids_length. cbn [List.length]. lia.
+  - intros [SL [NE [NH [[l1 [EL EN]] [P1 [G [Bn [Pn [PNE [NB [SLL [NS SEMI]]]]]]]]]]]].
+    cbn [app List.length]. rewrite <- app_assoc. cbn [app].
+    rewrite (gsi_contc line lab l1 nm p1 es bn pn rest lc SL NE NH EL EN P1 G Bn Pn PNE NB SLL NS).
+    split; [|exact SEMI]. f_equal. f_equal. rewrite app_length, map_length. cbn [List.length]. lia.
   - intros [B SL]. cbn [app List.length]. rewrite Nat.add_1_r.
-    eexists. split; [apply (gsi_comment b c rest lc B SL)|]. destruct ign; reflexivity.
-  - intros _. cbn [app List.length]. rewrite Nat.add_1_r.
-    eexists. split; [apply gsi_blank|]. destruct ign; reflexivity.
+    split; [apply (gsi_comment b c rest lc B SL)|exact I].
+  - intros _. cbn [app List.length]. rewrite Nat.add_1_r. split; [apply gsi_blank|exact I].
 Qed.
 
-(* ---- what the next delivered item is, as a function of the layout list *)
-Fixpoint first_of (ls : list lay) (lc : nat) : option (ritem * list lay * nat) :=
+(* items waiting in the queue: comments, and statement items without ';' *)
+Definition pend_ok (it : ritem) : Prop :=
+  match it with RLine t _ _ _ _ => mem_char ";"%char t = false | RCpp _ _ _ => False | RComment _ _ _ _ => True end.
+
+Lemma ecoms_pend es lc : Forall pend_ok (ecoms es lc).
+Proof. revert lc. induction es as [|e r IH]; intros lc; [constructor|]. destruct e; cbn [ecoms]; try apply IH. constructor; [exact I|apply IH]. Qed.
+
+Lemma produced_pend l lc : good l -> pend_ok (fst (produced l lc)) /\ Forall pend_ok (snd (produced l lc)).
+Proof.
+  intros G. destruct (gsi_lay l [] lc G) as [_ K]. split.
+  - destruct (fst (produced l lc)); [exact K|exact I|contradiction].
+  - destruct l; cbn [produced snd]; try constructor. apply ecoms_pend.
+Qed.
+
+Lemma ecoms_length es : forall k, List.length (ecoms es k) <= List.length es.
+Proof.
+  induction es as [|e r IH]; intros k; [cbn; lia|].
+  destruct e; cbn [ecoms List.length]; specialize (IH (S k)); lia.
+Qed.
+Lemma produced_queue_short l lc : List.length (snd (produced l lc)) < List.length (phys l).
+Proof.
+  destruct l; cbn [produced snd List.length phys]; try lia.
+  rewrite app_length, map_length. cbn [List.length]. pose proof (ecoms_length es (S (S lc))). lia.
+Qed.
+
+(* ---- the next delivered item, from a queue of pending items and a list of layout elements *)
+Fixpoint first_pend (pend : list ritem) : option (ritem * list ritem) :=
+  match pend with
+  | [] => None
+  | it :: r => if kept it then Some (it, r) else first_pend r
+  end.
+
+Fixpoint first_lay (ls : list lay) (lc : nat) : option (ritem * list ritem * list lay * nat) :=
   match ls with
   | [] => None
-  | l :: r => match item l lc with
-              | it :: _ => Some (it, r, lc + List.length (phys l))
-              | [] => first_of r (lc + List.length (phys l))
-              end
+  | l :: r =>
+      let lc' := lc + List.length (phys l) in
+      match first_pend (fst (produced l lc) :: snd (produced l lc)) with
+      | Some (it, q) => Some (it, q, r, lc')
+      | None => first_lay r lc'
+      end
+  end.
+
+Definition first_gen (pend : list ritem) (ls : list lay) (lc : nat) : option (ritem * list ritem * list lay * nat) :=
+  match first_pend pend with
+  | Some (it, q) => Some (it, q, ls, lc)
+  | None => first_lay ls lc
   end.
 
 Fixpoint end_count (ls : list lay) (lc : nat) : nat :=
   match ls with [] => lc | l :: r => end_count r (lc + List.length (phys l)) end.
 
-Lemma next_raw_layouts : forall ls lc fuel, Forall good ls -> List.length ls < fuel ->
-  next_raw fuel (stt (flat_map phys ls) lc []) =
-  match first_of ls lc with
-  | Some (it, r, lc') => (Some it, stt (flat_map phys r) lc' [])
+Lemma next_raw_pend : forall pend fuel src lc, List.length pend < fuel ->
+  match first_pend pend with
+  | Some (it, q) => next_raw fuel (stt src lc pend) = (Some it, stt src lc q)
+  | None => exists f, next_raw fuel (stt src lc pend) = next_raw f (stt src lc []) /\ fuel = f + List.length pend
+  end.
+Proof.
+  induction pend as [|it r IH]; intros fuel src lc LT; cbn [first_pend].
+  - exists fuel. split; [reflexivity|cbn; lia].
+  - destruct fuel as [|f]; [cbn in LT; lia|]. cbn [next_raw r_fifo st].
+    change (upd_fifo r (stt src lc (it :: r))) with (stt src lc r).
+    destruct it as [t lab nm a b|t a b il|t a b]; cbn [kept].
+    + reflexivity.
+    + cbn [r_ign st]. destruct ign; cbn [negb].
+      * specialize (IH f src lc ltac:(cbn in LT; lia)). destruct (first_pend r) as [[it' q]|]; [exact IH|].
+        destruct IH as [f' [E1 E2]]. exists f'. split; [exact E1|cbn; lia].
+      * reflexivity.
+    + reflexivity.
+Qed.
+
+Lemma next_raw_gen : forall ls pend lc fuel, Forall good ls ->
+  List.length pend + List.length (flat_map phys ls) < fuel ->
+  next_raw fuel (stt (flat_map phys ls) lc pend) =
+  match first_gen pend ls lc with
+  | Some (it, q, r, lc') => (Some it, stt (flat_map phys r) lc' q)
   | None => (None, stt [] (end_count ls lc) [])
   end.
 Proof.
-  induction ls as [|l r IH]; intros lc fuel G LT.
-  - destruct fuel as [|f]; [cbn in LT; lia|]. cbn [flat_map first_of end_count next_raw r_fifo st].
-    rewrite gsi_end. reflexivity.
-  - destruct fuel as [|f]; [cbn in LT; lia|]. inversion G as [|x y Gl Gr]; subst.
-    cbn [flat_map next_raw r_fifo st].
-    destruct (gsi_lay l (flat_map phys r) lc Gl) as [it [E K]]. rewrite E.
-    cbn [first_of end_count].
-    destruct it as [t lab nm a b|t a b il|t a b]; [| |contradiction].
-    + destruct K as [K _]. rewrite K. reflexivity.
-    + cbn [r_ign st]. rewrite K. destruct ign.
-      * apply IH; [exact Gr|cbn in LT; lia].
-      * reflexivity.
+  induction ls as [|l r IH]; intros pend lc fuel G LT; unfold first_gen.
+  - cbn [flat_map]. pose proof (next_raw_pend pend fuel [] lc ltac:(cbn in LT; lia)) as NP.
+    destruct (first_pend pend) as [[it q]|]; [exact NP|]. destruct NP as [f [E1 E2]]. rewrite E1.
+    destruct f as [|f]; [cbn in LT; lia|]. cbn [flat_map first_lay end_count next_raw r_fifo st]. rewrite gsi_end. reflexivity.
+  - inversion G as [|x y Gl Gr]; subst.
+    pose proof (next_raw_pend pend fuel (flat_map phys (l :: r)) lc ltac:(cbn in LT; lia)) as NP.
+    destruct (first_pend pend) as [[it q]|]; [exact NP|]. destruct NP as [f [E1 E2]]. rewrite E1.
+    destruct f as [|f]; [cbn in LT; lia|]. cbn [flat_map next_raw r_fifo st].
+    destruct (gsi_lay l (flat_map phys r) lc Gl) as [E _]. rewrite E. cbn [first_lay end_count].
+    set (main := fst (produced l lc)). set (q0 := snd (produced l lc)). set (lc' := lc + List.length (phys l)).
+    specialize (IH q0 lc' f Gr).
+    cbn [first_pend]. destruct main as [t lab nm a b|t a b il|t a b] eqn:EM; cbn [kept].
+    + reflexivity.
+    + cbn [r_ign st]. destruct ign; cbn [negb]; [|reflexivity].
+      rewrite IH.
+      * unfold first_gen. destruct (first_pend q0) as [[it' q']|]; reflexivity.
+      * assert (LQ : List.length q0 < List.length (phys l)) by (apply produced_queue_short).
+        cbn [flat_map] in LT. rewrite app_length in LT. lia.
+    + reflexivity.
 Qed.
 
-Lemma first_of_spec : forall ls lc, Forall good ls ->
-  match first_of ls lc with
+Lemma first_pend_spec pend : Forall pend_ok pend ->
+  match first_pend pend with
+  | None => keep pend = []
+  | Some (it, q) => keep pend = it :: keep q /\ Forall pend_ok q /\ pend_ok it
+  end.
+Proof.
+  induction 1 as [|it r P F IH]; [reflexivity|]. cbn [first_pend keep filter].
+  destruct (kept it) eqn:K.
+  - repeat split; auto.
+  - fold (keep r). destruct (first_pend r) as [[it' q]|]; exact IH.
+Qed.
+
+Lemma first_lay_spec : forall ls lc, Forall good ls ->
+  match first_lay ls lc with
   | None => items ls lc = []
-  | Some (it, r, lc') => items ls lc = it :: items r lc' /\ List.length r < List.length ls /\ Forall good r /\
-                         (match it with RLine t _ _ _ _ => mem_char ";"%char t = false | RCpp _ _ _ => False | _ => True end)
+  | Some (it, q, r, lc') => items ls lc = it :: keep q ++ items r lc' /\ Forall pend_ok q /\ Forall good r /\ pend_ok it
   end.
 Proof.
   induction ls as [|l r IH]; intros lc G; [reflexivity|]. inversion G as [|x y Gl Gr]; subst.
-  cbn [first_of items]. destruct (gsi_lay l [] lc Gl) as [it [_ K]].
-  destruct it as [t lab nm a b|t a b il|t a b]; [| |contradiction].
-  - destruct K as [K S]. rewrite K. cbn [app]. repeat split; auto.
-  - rewrite K. destruct ign.
-    + cbn [app]. specialize (IH (lc + List.length (phys l)) Gr).
-      destruct (first_of r (lc + List.length (phys l))) as [[[it' r'] lc']|]; [|exact IH].
-      destruct IH as [A [B [C D]]]. repeat split; auto. cbn [List.length]. lia.
-    + cbn [app]. repeat split; auto.
+  cbn [first_lay items]. unfold item.
+  destruct (produced_pend l lc Gl) as [P1 P2].
+  pose proof (first_pend_spec (fst (produced l lc) :: snd (produced l lc)) (Forall_cons _ P1 P2)) as FP.
+  destruct (first_pend (fst (produced l lc) :: snd (produced l lc))) as [[it q]|].
+  - destruct FP as [E [Fq Pi]]. rewrite E. cbn [app]. repeat split; auto.
+  - rewrite FP. cbn [app]. apply IH. exact Gr.
+Qed.
+
+Lemma first_gen_spec pend ls lc : Forall pend_ok pend -> Forall good ls ->
+  match first_gen pend ls lc with
+  | None => keep pend ++ items ls lc = []
+  | Some (it, q, r, lc') =>
+      keep pend ++ items ls lc = it :: keep q ++ items r lc' /\ Forall pend_ok q /\ Forall good r /\ pend_ok it
+  end.
+Proof.
+  intros FP G. unfold first_gen. pose proof (first_pend_spec pend FP) as S1.
+  destruct (first_pend pend) as [[it q]|].
+  - destruct S1 as [E [Fq Pi]]. rewrite E. cbn [app]. repeat split; auto.
+  - rewrite S1. cbn [app]. apply first_lay_spec. exact G.
 Qed.
 
 Lemma flat_map_phys_length ls : List.length ls <= List.length (flat_map phys ls).
@@ -245,34 +443,45 @@ Proof.
   pose proof (phys_length_pos l). lia.
 Qed.
 
-Lemma next_item_layouts ls lc : Forall good ls ->
-  next_item (stt (flat_map phys ls) lc []) =
-  match first_of ls lc with
-  | Some (it, r, lc') => (Some it, stt (flat_map phys r) lc' [])
+Lemma next_item_gen ls pend lc : Forall pend_ok pend -> Forall good ls ->
+  next_item (stt (flat_map phys ls) lc pend) =
+  match first_gen pend ls lc with
+  | Some (it, q, r, lc') => (Some it, stt (flat_map phys r) lc' q)
   | None => (None, stt [] (end_count ls lc) [])
   end.
 Proof.
-  intros G. unfold next_item. cbn [r_src r_filo r_fifo st List.length].
-  rewrite (next_raw_layouts ls lc _ G) by (pose proof (flat_map_phys_length ls); lia).
-  pose proof (first_of_spec ls lc G) as SP.
-  destruct (first_of ls lc) as [[[it r] lc']|]; [|reflexivity].
+  intros FP G. unfold next_item. cbn [r_src r_filo r_fifo st List.length].
+  rewrite (next_raw_gen ls pend lc _ G) by lia.
+  pose proof (first_gen_spec pend ls lc FP G) as SP.
+  destruct (first_gen pend ls lc) as [[[[it q] r] lc']|]; [|reflexivity].
   destruct SP as [_ [_ [_ D]]]. destruct it as [t lab nm a b|t a b il|t a b]; [|reflexivity|contradiction].
   unfold split_item. rewrite (semi_split_none _ D). reflexivity.
 Qed.
 
-(* ---- the whole file *)
-Theorem read_all_layouts : forall fuel ls lc, Forall good ls -> List.length ls < fuel ->
-  read_all fuel (stt (flat_map phys ls) lc []) = items ls lc.
+(* ---- the whole file, from any line count and with any queue of pending items *)
+Theorem read_all_layouts : forall fuel ls pend lc, Forall pend_ok pend -> Forall good ls ->
+  List.length (keep pend ++ items ls lc) < fuel ->
+  read_all fuel (stt (flat_map phys ls) lc pend) = keep pend ++ items ls lc.
 Proof.
-  induction fuel as [|f IH]; intros ls lc G LT; [lia|].
-  cbn [read_all]. rewrite (next_item_layouts ls lc G).
-  pose proof (first_of_spec ls lc G) as SP.
-  destruct (first_of ls lc) as [[[it r] lc']|].
-  - destruct SP as [A [B [C _]]]. rewrite A. f_equal. apply IH; [exact C|lia].
+  induction fuel as [|f IH]; intros ls pend lc FP G LT; [lia|].
+  cbn [read_all]. rewrite (next_item_gen ls pend lc FP G).
+  pose proof (first_gen_spec pend ls lc FP G) as SP.
+  destruct (first_gen pend ls lc) as [[[[it q] r] lc']|].
+  - destruct SP as [A [B [C _]]]. rewrite A. f_equal. apply IH; [exact B|exact C|]. rewrite A in LT. cbn in LT. lia.
   - now rewrite SP.
 Qed.
 
-(* ... and after the last item the reader is at the end of the input, having counted every line *)
+Lemma keep_length l : List.length (keep l) <= List.length l.
+Proof. induction l as [|x r IH]; [reflexivity|]. cbn [keep filter]. fold (keep r). destruct (kept x); cbn; lia. Qed.
+
+Lemma items_length : forall ls lc, List.length (items ls lc) <= List.length (flat_map phys ls).
+Proof.
+  induction ls as [|l r IH]; intros lc; [reflexivity|]. cbn [items flat_map]. rewrite !app_length.
+  specialize (IH (lc + List.length (phys l))). unfold item.
+  pose proof (keep_length (fst (produced l lc) :: snd (produced l lc))) as K. cbn [List.length] in K.
+  pose proof (produced_queue_short l lc). lia.
+Qed.
+
 Lemma end_count_total ls lc : end_count ls lc = lc + List.length (flat_map phys ls).
 Proof.
   revert lc. induction ls as [|l r IH]; intros lc; cbn [end_count flat_map List.length]; [lia|].
@@ -281,72 +490,104 @@ Qed.
 
 End File.
 
-(* ---- comments: kept in place, or ignored without effect *)
-Definition is_stmt (l : lay) : bool := match l with LOne _ _ _ _ | LCont _ _ _ _ _ _ _ => true | _ => false end.
-Definition stmt_texts (its : list ritem) : list (text * option N * option text) :=
-  flat_map (fun it => match it with RLine t lab nm _ _ => [(t, lab, nm)] | _ => [] end) its.
-Definition comment_items (its : list ritem) : list ritem :=
-  filter (fun it => match it with RComment _ _ _ _ => true | _ => false end) its.
-
-Lemma stmt_texts_app a b : stmt_texts (a ++ b) = stmt_texts a ++ stmt_texts b.
-Proof. apply flat_map_app. Qed.
-
-(* the statements delivered do not depend on the comment setting nor on the comment and empty lines
-   being there at all *)
-Lemma stmt_texts_items ign1 ign2 : forall ls lc lc',
-  stmt_texts (items ign1 ls lc) = stmt_texts (items ign2 (filter is_stmt ls) lc').
-Proof.
-  induction ls as [|l r IH]; intros lc lc'; [reflexivity|].
-  cbn [items filter]. rewrite stmt_texts_app.
-  destruct l as [line lab nm p|line lab nm p1 ms bn pn|b c|]; cbn [is_stmt].
-  - cbn [items]. rewrite stmt_texts_app. cbn [item]. f_equal. apply IH.
-  - cbn [items]. rewrite stmt_texts_app. cbn [item]. f_equal. apply IH.
-  - cbn [item]. destruct ign1; cbn; apply IH.
-  - cbn [item]. destruct ign1; cbn; apply IH.
-Qed.
-
-(* with comments ignored no comment item is delivered; with comments kept, each comment or empty line
-   is delivered exactly once, in order, as an item spanning exactly its own line *)
-Fixpoint comments_of (ls : list lay) (lc : nat) : list ritem :=
-  match ls with
-  | [] => []
-  | l :: r => (match l with
-               | LCom _ c => [RComment (bang :: c) (S lc) (S lc) false]
-               | LBlank => [RComment [] (S lc) (S lc) false]
-               | _ => []
-               end) ++ comments_of r (lc + List.length (phys l))
-  end.
-
-Lemma comment_items_app a b : comment_items (a ++ b) = comment_items a ++ comment_items b.
-Proof. apply filter_app. Qed.
-
-Lemma comments_kept : forall ls lc, comment_items (items false ls lc) = comments_of ls lc.
-Proof.
-  induction ls as [|l r IH]; intros lc; [reflexivity|]. cbn [items comments_of]. rewrite comment_items_app, IH.
-  destruct l; reflexivity.
-Qed.
-Lemma comments_ignored : forall ls lc, comment_items (items true ls lc) = [].
-Proof.
-  induction ls as [|l r IH]; intros lc; [reflexivity|]. cbn [items]. rewrite comment_items_app, IH.
-  destruct l; reflexivity.
-Qed.
-
 (* ---- the public entry point *)
 Theorem read_source_layouts ign ls : Forall good ls ->
   read_source (flat_map phys ls) true false ign = items ign ls 0.
 Proof.
-  intros G. unfold read_source. apply (read_all_layouts ign _ ls 0 G).
-  pose proof (flat_map_phys_length ls). lia.
+  intros G. unfold read_source.
+  change (rst0 (flat_map phys ls) true false ign) with (st ign (flat_map phys ls) 0 []).
+  rewrite (read_all_layouts ign _ ls [] 0 (Forall_nil _) G); [reflexivity|].
+  cbn [keep filter app]. pose proof (items_length ign ls 0). lia.
+Qed.
+
+(* ---- comments: kept in place, or ignored without effect *)
+Definition is_stmt (l : lay) : bool :=
+  match l with LOne _ _ _ _ | LCont _ _ _ _ _ _ _ | LContC _ _ _ _ _ _ _ => true | _ => false end.
+Definition stmt_texts (its : list ritem) : list (text * option N * option text) :=
+  flat_map (fun it => match it with RLine t lab nm _ _ => [(t, lab, nm)] | _ => [] end) its.
+Definition is_comment (it : ritem) : bool := match it with RComment _ _ _ _ => true | _ => false end.
+Definition comment_items (its : list ritem) : list ritem := filter is_comment its.
+
+(* every comment of the source with the line it stands on: full-line comments and empty lines where
+   they stand, the comments between the lines of a continued statement right after that statement *)
+Fixpoint comments_of (ls : list lay) (lc : nat) : list ritem :=
+  match ls with
+  | [] => []
+  | l :: r => comment_items (fst (produced l lc) :: snd (produced l lc)) ++ comments_of r (lc + List.length (phys l))
+  end.
+
+Lemma stmt_texts_app a b : stmt_texts (a ++ b) = stmt_texts a ++ stmt_texts b.
+Proof. apply flat_map_app. Qed.
+Lemma comment_items_app a b : comment_items (a ++ b) = comment_items a ++ comment_items b.
+Proof. apply filter_app. Qed.
+
+Lemma keep_false l : keep false l = l.
+Proof. induction l as [|x r IH]; [reflexivity|]. cbn [keep filter]. fold (keep false r). rewrite IH. destruct x; reflexivity. Qed.
+Lemma comment_items_keep_true l : comment_items (keep true l) = [].
+Proof. induction l as [|x r IH]; [reflexivity|]. cbn [keep filter]. fold (keep true r). destruct x; cbn; exact IH. Qed.
+Lemma stmt_texts_keep ign l : stmt_texts (keep ign l) = stmt_texts l.
+Proof.
+  unfold stmt_texts. induction l as [|x r IH]; [reflexivity|]. cbn [keep filter]. fold (keep ign r).
+  destruct x as [t lab nm a b|t a b il|t a b]; cbn [kept].
+  - cbn [flat_map app]. f_equal. exact IH.
+  - destruct (negb ign); cbn [flat_map app]; exact IH.
+  - cbn [flat_map app]. exact IH.
+Qed.
+Lemma stmt_texts_comments l : Forall (fun it => is_comment it = true) l -> stmt_texts l = [].
+Proof. induction 1 as [|x r H F IH]; [reflexivity|]. destruct x; try discriminate. exact IH. Qed.
+Lemma ecoms_comments es lc : Forall (fun it => is_comment it = true) (ecoms es lc).
+Proof. revert lc. induction es as [|e r IH]; intros lc; [constructor|]. destruct e; cbn [ecoms]; try apply IH. constructor; [reflexivity|apply IH]. Qed.
+
+Lemma comments_kept : forall ls lc, comment_items (items false ls lc) = comments_of ls lc.
+Proof.
+  induction ls as [|l r IH]; intros lc; [reflexivity|]. cbn [items comments_of]. rewrite comment_items_app, IH.
+  unfold item. now rewrite keep_false.
+Qed.
+Lemma comments_ignored : forall ls lc, comment_items (items true ls lc) = [].
+Proof.
+  induction ls as [|l r IH]; intros lc; [reflexivity|]. cbn [items]. rewrite comment_items_app, IH.
+  unfold item. now rewrite comment_items_keep_true.
+Qed.
+
+(* the statements delivered do not depend on the comment setting nor on the comment and empty lines
+   being there at all (those between the lines of a continued statement included) *)
+Definition strip_comments (l : lay) : lay :=
+  match l with
+  | LContC line lab nm p1 es bn pn => LContC line lab nm p1 (filter (fun e => match e with CMid _ _ => true | _ => false end) es) bn pn
+  | x => x
+  end.
+Lemma etext_filter es : etext (filter (fun e => match e with CMid _ _ => true | _ => false end) es) = etext es.
+Proof.
+  unfold etext. induction es as [|e r IH]; [reflexivity|].
+  destruct e; cbn [filter map List.concat]; [f_equal; exact IH|exact IH|exact IH].
+Qed.
+
+Lemma stmt_texts_items ign1 ign2 : forall ls lc lc',
+  stmt_texts (items ign1 ls lc) = stmt_texts (items ign2 (map strip_comments (filter is_stmt ls)) lc').
+Proof.
+  induction ls as [|l r IH]; intros lc lc'; [reflexivity|].
+  cbn [items filter]. rewrite stmt_texts_app. unfold item. rewrite stmt_texts_keep.
+  destruct l as [line lab nm p|line lab nm p1 ms bn pn|line lab nm p1 es bn pn|b c|]; cbn [is_stmt map].
+  - cbn [items]. rewrite stmt_texts_app. unfold item. rewrite stmt_texts_keep. cbn [produced fst snd strip_comments].
+    cbn [stmt_texts flat_map app]. f_equal. apply IH.
+  - cbn [items]. rewrite stmt_texts_app. unfold item. rewrite stmt_texts_keep. cbn [produced fst snd strip_comments].
+    cbn [stmt_texts flat_map app]. f_equal. apply IH.
+  - cbn [items]. rewrite stmt_texts_app. unfold item. rewrite stmt_texts_keep. cbn [produced fst snd strip_comments].
+    change (stmt_texts (?a :: ?q)) with (stmt_texts [a] ++ stmt_texts q).
+    rewrite !(stmt_texts_comments _ (ecoms_comments _ _)), !app_nil_r. cbn [stmt_texts flat_map app].
+    rewrite etext_filter. f_equal. apply IH.
+  - cbn [produced fst snd stmt_texts flat_map app]. apply IH.
+  - cbn [produced fst snd stmt_texts flat_map app]. apply IH.
 Qed.
 
 Theorem read_comments_kept ls : Forall good ls ->
   comment_items (read_source (flat_map phys ls) true false false) = comments_of ls 0.
 Proof. intros G. rewrite (read_source_layouts false ls G). apply comments_kept. Qed.
 
-Theorem read_comments_ignored ls ign : Forall good ls -> Forall good (filter is_stmt ls) ->
+Theorem read_comments_ignored ls ign : Forall good ls -> Forall good (map strip_comments (filter is_stmt ls)) ->
   comment_items (read_source (flat_map phys ls) true false true) = [] /\
   stmt_texts (read_source (flat_map phys ls) true false ign)
-  = stmt_texts (read_source (flat_map phys (filter is_stmt ls)) true false true).
+  = stmt_texts (read_source (flat_map phys (map strip_comments (filter is_stmt ls))) true false true).
 Proof.
   intros G G'. rewrite (read_source_layouts true ls G), (read_source_layouts ign ls G), (read_source_layouts true _ G').
   split; [apply comments_ignored|apply stmt_texts_items].
